@@ -16,7 +16,9 @@ PROP = 'C20'
 LEVEL = 'proof'
 PROPS_MODULES = ['RTV.Props.C20']
 GEN = ['chartables', 'regexes', 'emojitable']
-REQUIRED_THEOREMS = []
+REQUIRED_THEOREMS = ['alts_polarity', 'alts_listed', 'neutral_nothing', 'both_polarities_one_entity',
+                     'reported_score_unit_interval', 'match_value_can_exceed_one', 'rewrite_true_regex',
+                     'prefix_rewrite_loses_thumbs_up', 'prefix_first_occurrence_span']
 RULE = ('alternatives enumerated from EnglishChoice.TrueRegex/FalseRegex of the working tree (`\\s+` as 1 and 3 blanks; '
         'surrogate pairs / \\u0001Fxxx escapes as the single code point they denote) x {lower, UPPER, Title} x 12 contexts '
         '(punctuation, filler words, blanks, tabs) + contexts with a filler word that contains the alternative as a '
@@ -178,6 +180,13 @@ def correspond(ctx):
     impl = Impl()
     res = load_choice()
     recorr.run(ctx, names=['boolTrueRegex', 'boolFalseRegex', 'boolTokenizerRegex'])
+    # which variant of the two repaired functions does the working tree follow? (DESIGN 2.5: both are modelled)
+    class _P:
+        pattern = '\\uD83D\\uDC4D'
+    v_rewrite = 'fixed' if impl.su.remove_unicode_matches(_P) == '\\U0001F44D' else 'prefix'
+    probe = impl.rec('nobody said no')
+    v_offset = 'fixed' if (probe and probe[0].start == 12) else 'prefix'
+    ctx.extra['variants'] = {'remove_unicode_matches': v_rewrite, 'span_offset': v_offset}
     tw, te = alternatives(res.TrueRegex)
     fw, fe = alternatives(res.FalseRegex)
     ctx.extra['alternatives'] = {'true_words': tw, 'true_emoji': te, 'false_words': fw, 'false_emoji': fe}
@@ -252,14 +261,14 @@ def correspond(ctx):
                 if ok:
                     ctx.nontriv(('both', q))
                 else:
-                    unreachable = rs == [] or (rs and len(rs) == 1 and {t, f} & {'👍', '✋'})
-                    ctx.report('property', 'both-polarities', 'recognize_boolean(%r): expected one listed expression with its own '
+                    dead = [e for e in (t, f) if e in te + fe and impl.rec(e) == []]
+                    ctx.report('property', 'emoji-unreachable' if dead else 'both-polarities', 'recognize_boolean(%r): expected one listed expression with its own '
                                'polarity, got %s' % (q, out),
                                failing_input={'op': 'recognize_boolean', 'query': q, 'reported': out}, property_fails=True)
 
     # ---- model vs implementation on every pipeline query
     queries = list(dict.fromkeys(queries))
-    lines = ['bool.rec\t' + cps(q) for q in queries]
+    lines = ['bool.rec\t%s\t%s' % (v_offset, cps(q)) for q in queries]
     model = common.driver(lines)
     ctx.count('model-vs-recognize_boolean', len(lines))
     for q, m in zip(queries, model):
@@ -272,6 +281,7 @@ def correspond(ctx):
     # ---- unit level
     # remove_unicode_matches on the resource texts and synthetic patterns
     pats = [res.TrueRegex, res.FalseRegex, res.SkinToneRegex, res.TokenizerRegex, '\\uD83D\\uDC4D', '\\u270B|x', 'a\\u12', '\\u1234',
+            '\\ud83d\\udc4d|\\uDBFF\\uDFFF', '\\uD83D\\u0041', '\\uDC4D\\uD83D', '\\u0001F44E|\\u000g1234', '\\u00012345', '\\uD83D\\uDC4',
             '\\u1234\\\\', 'x\\u12\n4|y', '\\u\\u1234|\\u5678\\', '(\\u0001f44c)', '\\\\u1234|', 'u1234|', '\\U1234|']
     class P:
         pass
@@ -279,7 +289,7 @@ def correspond(ctx):
     for p in pats:
         o = P()
         o.pattern = p
-        lines.append('bool.rewrite\t' + cps(p))
+        lines.append('bool.rewrite\t%s\t%s' % (v_rewrite, cps(p)))
         want.append(cps(impl.su.remove_unicode_matches(o)))
     # tokenizer
     tq = [q.lower() for q in queries if q.strip()][:1500] + ['a👌b', '👌a', 'a 👌', '👌👌', 'x_y-z', 'é١', 'a\u200db', '١٢', 'a.b', '🏿']
@@ -326,7 +336,7 @@ def correspond(ctx):
     # extract
     lines, want = [], []
     for q in queries[:2500]:
-        lines.append('bool.extract\t' + cps(q))
+        lines.append('bool.extract\t%s\t%s' % (v_offset, cps(q)))
         try:
             ers = impl.extractor.extract(q)
             want.append([(e.start, e.length, e.text, e.type, e.data.score) for e in ers])
